@@ -3,7 +3,7 @@ Shared harness for TorConfig (C10, C11): the real TorConfig on the real protocol
 Tor's configuration store.  A case:
   {'options': [[name, type], …] (default OPTIONS), 'store': {name: [values]}, 'defaults': {name: [lines]} | None,
    'ops': [op, …]}
-  op = ['assign', name, pyvalue] | ['lop', name, opname, args…] | ['save'] | ['ack', ok]
+  op = ['assign', name, pyvalue] | ['assign', name, items, source option]  (cfg.name = cfg.source: the tracked list object itself) | ['lop', name, opname, args…] | ['save'] | ['ack', ok]
      | ['conf', [[key-as-written, [values]], …]]
 Types are Tor's (config/names) plus 'PortLines' for the FooPort / FooPortLines / __FooPort triple.
 After every op: SETCONF pairs seen, outcomes of save() Deferreds, needs_save(), and every option read
@@ -167,7 +167,13 @@ class Impl:
     def do(self, op):
         k = op[0]
         try:
-            if k == 'assign':
+            if k == 'assign' and len(op) > 3:
+                # the value is the tracked list read from another option (`cfg.A = cfg.B`); op[2] records what it held
+                src = getattr(self.cfg, op[3])
+                if [str(x) for x in src] != list(op[2]):
+                    self.log.append(['exc', 'source-list-differs'])
+                setattr(self.cfg, op[1], src)
+            elif k == 'assign':
                 setattr(self.cfg, op[1], list(op[2]) if isinstance(op[2], list) else op[2])
             elif k == 'lop':
                 lst = getattr(self.cfg, op[1])
